@@ -81,17 +81,54 @@ class Work:
                         n += 1
         self.blackbox = n > 0
         self.built = {}
+        if getattr(self, "_yield_repo", None):
+            shutil.rmtree(self._yield_repo, ignore_errors=True)
+        self._yield_repo = None
         return n > 0
 
-    def build(self, name, race=False):
-        """go build the harness command zzverif/<name> against the scratch copy."""
-        key = (name, race)
+    # the files whose interleavings matter: every statement of their functions gets a seeded yield point
+    YIELD_FILES = [
+        "list/copy_on_write_array_list.go", "list/concurrent_list.go", "queue/concurrent_linked_queue.go",
+        "queue/concurrent_array_blocking_queue.go", "queue/concurrent_linked_blocking_queue.go",
+        "queue/delay_queue.go", "queue/concurrent_priority_queue.go", "syncx/cond.go", "syncx/map.go",
+        "syncx/limit_pool.go", "syncx/pool.go", "syncx/segment_key_lock.go", "pool/task_pool.go",
+        "retry/exponential.go", "retry/fixed_internal.go", "retry/retry.go",
+    ]
+
+    def yield_repo(self):
+        """A second scratch copy whose concurrent files are instrumented with yield points (schedule
+        fuzzing, harness/yieldinst). Returns its path, or None (with self.yield_log set) if that failed."""
+        if getattr(self, "_yield_repo", None) is not None:
+            return self._yield_repo or None
+        self._yield_repo = ""
+        binp, blog = self.build("yieldinst")
+        if binp is None:
+            self.yield_log = "yieldinst does not build: " + blog
+            return None
+        dst = os.path.join(self.dir, "repo-yield")
+        shutil.copytree(self.repo, dst, symlinks=True)
+        files = [f for f in self.YIELD_FILES if os.path.exists(os.path.join(dst, f))]
+        rc, log = sh([binp, "-root", dst] + files, env=GOENV, timeout=120)
+        if rc != 0:
+            self.yield_log = "yieldinst failed: " + log
+            return None
+        self._yield_repo = dst
+        return dst
+
+    def build(self, name, race=False, yielding=False):
+        """go build the harness command zzverif/<name> against the scratch copy (or its yield-instrumented twin)."""
+        key = (name, race, yielding)
         if key in self.built:
             return self.built[key]
-        out = os.path.join(self.bin, name + ("-race" if race else ""))
+        repo = self.repo
+        if yielding:
+            repo = self.yield_repo()
+            if repo is None:
+                return (None, getattr(self, "yield_log", "no instrumented copy"))
+        out = os.path.join(self.bin, name + ("-race" if race else "") + ("-yield" if yielding else ""))
         cmd = ["go", "build", "-tags", "verif"] + (["-race"] if race else []) + ["-o", out, "./zzverif/" + name]
-        rc, log = sh(cmd, cwd=self.repo, env=GOENV, timeout=600)
-        if rc != 0 and not self.blackbox:
+        rc, log = sh(cmd, cwd=repo, env=GOENV, timeout=600)
+        if rc != 0 and not self.blackbox and not yielding:
             # a hook may no longer compile against an edited tree: fall back to the black-box stubs
             self.hook_log = log
             if self.use_stub_hooks():
